@@ -137,13 +137,19 @@ def h_bypos(kind, scale, k, shift, pbc, concrete_cell):
     return fn
 
 
-def h_interstitial(scale, occupied):
+def h_interstitial(scale, occupied, pbc=(False, False, False), image=0):
+    """image: the site is given displaced by image x the first cell vector; it is occupied through that image exactly when
+    the first direction is periodic"""
     def fn():
-        s, P, T, Q, V, O = mk_system((False, False, False))
+        s, P, T, Q, V, O = mk_system(pbc)
         newt = 2; newq = var('newq', -5, 5)
         if occupied:
             dl = [var(f'dl{j}', -0.005, 0.005) for j in range(3)]
-            cart = [P[1][j] + dl[j] for j in range(3)]
+            cart = [P[1][j] + dl[j] + image * V[0][j] for j in range(3)]
+        elif image:
+            # next to the image of atom 1 along a NON-periodic direction: an empty site
+            dl = [var(f'dl{j}', -0.005, 0.005) for j in range(3)]
+            cart = [P[1][j] + dl[j] + image * V[0][j] for j in range(3)]
         else:
             cart = [var('ix', 3.4, 3.9), var('iy', -1, 1), var('iz', -1, 1)]          # x band disjoint from every atom (>= 0.5 away)
         if scale:
@@ -163,11 +169,16 @@ def h_interstitial(scale, occupied):
     return fn
 
 
-def h_absent(kind):
-    """no atom within atol of the position: refused"""
+def h_absent(kind, image=0):
+    """no atom within atol of the position: refused (image: the position is one cell vector away from atom 1 along a
+    NON-periodic direction - only periodic images count)"""
     def fn():
         s, P, T, Q, V, O = mk_system((False, False, False))
-        pos = [var('ix', 3.4, 3.9), var('iy', -1, 1), var('iz', -1, 1)]
+        if image:
+            dl = [var(f'dl{j}', -0.005, 0.005) for j in range(3)]
+            pos = [P[1][j] + dl[j] + image * V[0][j] for j in range(3)]
+        else:
+            pos = [var('ix', 3.4, 3.9), var('iy', -1, 1), var('iz', -1, 1)]
         try:
             run_defect(kind, s, dict(pos=sa(pos)), False, {'v': None, 's': (3, 0.5), 'db': (sa([0.1, 0, 0]), 0.5)}[kind], False)
         except ValueError:
@@ -234,6 +245,14 @@ def cases(tier, seed=0):
                            max_paths=200, descr=f'interstitial at a {"occupied" if occ else "free"} site, scale={scale}'))
     for kind in ('v', 's', 'db'):
         cs.append(Case(f'absent_{kind}', h_absent(kind), bind=BIND, kernels=KER, maxcases=32, budget_s=120, timeout_ms=15000, descr=f'{kind}: no atom within atol of the position'))
+    cs.append(Case('interstitial_occupied_through_image_TFF', h_interstitial(False, True, (True, False, False), 1), bind=BIND, kernels=KER, maxcases=32, budget_s=150, timeout_ms=15000,
+                   descr='interstitial site occupied through a periodic image: refused'))
+    cs.append(Case('interstitial_scaled_occupied_through_image_TFF', h_interstitial(True, True, (True, False, False), -1), bind=BIND, kernels=KER, maxcases=32, budget_s=150, timeout_ms=15000,
+                   descr='interstitial site (box-relative, outside [0,1)) occupied through a periodic image: refused'))
+    cs.append(Case('interstitial_free_next_to_nonperiodic_image_FFF', h_interstitial(False, False, (False, False, False), 1), bind=BIND, kernels=KER, maxcases=32, budget_s=150, timeout_ms=15000,
+                   descr='a site one cell vector away from an atom along a non-periodic direction is free'))
+    for kind in ('v', 's'):
+        cs.append(Case(f'absent_{kind}_nonperiodic_image', h_absent(kind, 1), bind=BIND, kernels=KER, maxcases=32, budget_s=120, timeout_ms=15000, descr=f'{kind}: position one cell vector away from an atom along a non-periodic direction holds no atom'))
     cs.append(Case('substitutional_same_type', h_substitutional_same_type(), bind=BIND, kernels=KER, budget_s=120, timeout_ms=15000, descr='substitution with the atom\'s own type refused'))
     cs.append(Case('two_insertions', h_two_vacancies(), bind=BIND, kernels=KER, budget_s=150, timeout_ms=15000, descr='old_id composes over two successive insertions'))
     return cs
